@@ -241,6 +241,23 @@ def allowedPreroll (tl : List Smp) : List Nat :=
     | s :: r => go (if s.nonSync then acc ++ [s.id] else [s.id]) r
   go [] pre
 
+/-- GET /get with the proposed fix (stop only when EVERY track is past the end of the window): per track, all
+samples before its cut-off reach the muxer -/
+def getFixed (tracks : List TrackInfo) (gsegs : List GSeg) (startNs durNs : Int) : Option (List GetOut) :=
+  match findSegments (gsegs.map (·.seg)) (some startNs) (some (startNs + durNs)) with
+  | none => none
+  | some l =>
+    let found := l.filterMap (fun s => gsegs.find? (fun g => g.seg == s))
+    match found with
+    | [] => none
+    | first :: _ =>
+      let outs := tracks.filterMap fun ti =>
+        let tl := trackTimeline ti startNs first none found
+        let fed := tl.filter (fun s => decide (s.dts < goToMp4 durNs ti.ts))
+        let m := fed.foldl muxStep ({ tid := ti.tid } : MTrack)
+        if m.seenVisible then some (⟨m.tid, m.firstDTS, m.buf⟩ : GetOut) else none
+      if outs.isEmpty then none else some outs
+
 /-! ### canonical text -/
 
 def fmtEntries (es : List Entry) : String :=
